@@ -29,6 +29,8 @@ type item struct {
 
 type link struct {
 	mu     sync.Mutex
+	gated  bool   // packets are parked in gq instead of q
+	gq     [][]byte
 	q      []item
 	notify chan struct{}
 	lastAt time.Time
@@ -103,6 +105,41 @@ func (n *Net) Inject(to string, b []byte) {
 	n.enqueue(peer(to), b, Fate{Copies: 1}, "inj")
 }
 
+// Gate parks (on) every later packet towards endpoint to until Release.
+func (n *Net) Gate(to string, on bool) {
+	l := n.to[to]
+	l.mu.Lock()
+	l.gated = on
+	l.mu.Unlock()
+	if !on {
+		n.Release(to, -1)
+	}
+}
+
+// Release lets k parked packets (all if k < 0) continue towards endpoint to,
+// in order, with the link latency.
+func (n *Net) Release(to string, k int) int {
+	l := n.to[to]
+	l.mu.Lock()
+	cnt := 0
+	for len(l.gq) > 0 && (k < 0 || cnt < k) {
+		at := time.Now().Add(n.Latency)
+		if at.Before(l.lastAt) {
+			at = l.lastAt
+		}
+		l.lastAt = at
+		l.q = append(l.q, item{b: l.gq[0], at: at})
+		l.gq = l.gq[1:]
+		cnt++
+	}
+	l.mu.Unlock()
+	select {
+	case l.notify <- struct{}{}:
+	default:
+	}
+	return cnt
+}
+
 // Pending returns the number of packets in flight towards endpoint e.
 func (n *Net) Pending(e string) int {
 	l := n.to[e]
@@ -120,7 +157,11 @@ func (n *Net) enqueue(from string, b []byte, f Fate, ev string) {
 		kv = append(kv, "d", int(f.Delay/time.Millisecond))
 	}
 	n.Rec.Emit(ev, kv...)
-	if f.Copies > 0 {
+	if f.Copies > 0 && l.gated {
+		for i := 0; i < f.Copies; i++ {
+			l.gq = append(l.gq, cp)
+		}
+	} else if f.Copies > 0 {
 		at := time.Now().Add(n.Latency + f.Delay)
 		if at.Before(l.lastAt) {
 			at = l.lastAt // order preserving
